@@ -79,6 +79,7 @@ type Evaluator struct {
 	OnCall   func(c ssa.CallInstruction, args []V)        // observe every call reached
 	OnStore  func(s *ssa.Store, val V)                    // observe every store reached
 	Inline   func(f *ssa.Function) bool                   // may the callee be inlined (pure accessor)?
+	OnInstr  func(in ssa.Instruction)                     // observe every instruction executed
 	MaxSteps int
 	depth    int
 	entryPhi bool // ValueAtEntry: a phi takes the value of its loop-entry edge(s)
@@ -159,6 +160,9 @@ func (e *Evaluator) Exec(fn *ssa.Function, args []V) Outcome {
 		}
 		for _, in := range b.Instrs {
 			steps++
+			if e.OnInstr != nil {
+				e.OnInstr(in)
+			}
 			if steps > e.MaxSteps {
 				return Outcome{Kind: "undecided", Reason: "step bound", Steps: steps}
 			}
